@@ -1420,6 +1420,7 @@ def search_toy_deterministic(ctx, lib):
     retry with the next suitable candidate) really happens: equals RFC 6979 section 3.2
     continued until a candidate gives r, s != 0, and verifies"""
     r = ctx.rng
+    hangs = 0
     for t, cv in zip(TOY, toy_curves(lib)):
         n = t[5]
         oc = OC(cv)
@@ -1447,6 +1448,9 @@ def search_toy_deterministic(ctx, lib):
                 continue
             if got != ("ok", want):
                 ctx.fail("toy-deterministic-differs", info, "sign_digest_deterministic -> %r, RFC 6979 with retry: %r" % (got, want))
+                hangs += got[0] == "err" and got[2] == "Hang"
+                if hangs >= 3:
+                    return
             elif not oc.verify(oc.mulG(d), e, *want):
                 ctx.fail("toy-deterministic-differs", info, "RFC 6979 signature %r does not verify" % (want,))
 
